@@ -10,7 +10,8 @@ package limit
 // (PING included) gets an error reply; an armed fault answers the ONE EVALSHA/EVAL of a chosen
 // call with a forged reply instead of executing it.  Request contexts are part of the case:
 // Background, cancelled right after the call returned ("live"), with a deadline that has passed by
-// the time the store recovers ("deadline"), already cancelled when the call is made ("cancelled").
+// the time the store recovers ("deadline"), already cancelled ("cancelled") or past its deadline
+// ("expired") when the call is made.
 
 import (
 	"bufio"
@@ -104,6 +105,8 @@ type verifStore struct {
 	armed string // hook: forged reply for the next EVALSHA / EVAL
 	hits  int
 	pings int // PINGs of monitor goroutines that failed during an outage
+	nSha, nEval int  // EVALSHA / EVAL commands that arrived (whatever became of them)
+	loaded      bool // the script is in the server's cache (an EVAL was executed)
 }
 
 func (s *verifStore) hook(c *server.Peer, cmd string, args ...string) bool {
@@ -112,6 +115,14 @@ func (s *verifStore) hook(c *server.Peer, cmd string, args ...string) bool {
 	ev := cmd == "EVALSHA" || cmd == "EVAL"
 	if a != "" && ev {
 		s.hits++
+	}
+	if cmd == "EVALSHA" {
+		s.nSha++
+	} else if cmd == "EVAL" {
+		s.nEval++
+		if a == "" && !d {
+			s.loaded = true
+		}
 	}
 	s.mu.Unlock()
 	if a != "" && ev {
@@ -182,6 +193,9 @@ func (s *verifStore) setUp() error {
 		if err := s.mr.Restart(); err != nil {
 			return err
 		}
+		s.mu.Lock()
+		s.loaded = false
+		s.mu.Unlock()
 		s.install()
 		return nil
 	}
@@ -231,6 +245,10 @@ func (x *verifCtxs) make(kind string) (context.Context, func()) {
 	case "cancelled":
 		ctx, cancel := context.WithCancel(context.Background())
 		cancel()
+		return ctx, func() {}
+	case "expired": // the deadline has passed before the call is made
+		ctx := &verifDeadlineCtx{done: make(chan struct{}), at: time.Now().Add(-time.Second)}
+		ctx.expire()
 		return ctx, func() {}
 	}
 	return context.Background(), func() {}
@@ -435,7 +453,10 @@ func verifTokenOnce(c verifCase) (out verifOut) {
 			if fault != "" {
 				st.arm(fault)
 			}
-			cmds := mr.CommandCount()
+			st.mu.Lock()
+			st.nSha, st.nEval = 0, 0
+			loaded := st.loaded
+			st.mu.Unlock()
 			ctx, done := cx.make(vstr(o, "ctx"))
 			var ok bool
 			switch vstr(o, "api") {
@@ -465,8 +486,13 @@ func verifTokenOnce(c verifCase) (out verifOut) {
 			after := verifAlive(lims[i])
 			expect[i] = after
 			// the reply of the script is not visible through AllowN: the circuit breaker cut the
-			// call off iff the instance fell back although the store is up and no command arrived
-			brk := !(before && !after && !st.down && fault == "" && mr.CommandCount() == cmds)
+			// call off iff the instance fell back although the store is up and its script was never
+			// run: no command arrived at all, or only the EVALSHA that was answered NOSCRIPT (the
+			// breaker wraps every command, so it can drop the EVAL that follows)
+			st.mu.Lock()
+			notRun := st.nSha == 0 || (!loaded && st.nEval == 0)
+			st.mu.Unlock()
+			brk := !(before && !after && !st.down && fault == "" && notRun)
 			out.Obs = append(out.Obs, []bool{ok, before, after, brk})
 		case "adv":
 			d := vnum(op[1])
@@ -485,6 +511,9 @@ func verifTokenOnce(c verifCase) (out verifOut) {
 			out.Obs = append(out.Obs, map[string]int64{"adv": d})
 		case "down":
 			st.setDown()
+			out.Obs = append(out.Obs, nil)
+		case "hold": // real time passes (an outage long enough for monitor pings to fail)
+			time.Sleep(time.Duration(vnum(op[1])) * time.Millisecond)
 			out.Obs = append(out.Obs, nil)
 		case "up", "sync":
 			if op[0].(string) == "up" {
